@@ -266,3 +266,73 @@ fn c23_schema_coordinate_len1() { check_schema_coordinate::<1>(); }
 #[kani::proof]
 #[kani::unwind(5)]
 fn c23_schema_coordinate_len2() { check_schema_coordinate::<2>(); }
+
+// @verif prop=C23 class=bounded tier=thorough bound="all strings of length 6 over the 11-byte class alphabet {a Z 7 _ . ( ) : @ - SP}" targets="TypeCoordinate::from_str" timeout=1800
+#[kani::proof]
+#[kani::unwind(9)]
+fn c23_type_len6() { check_type::<6>(); }
+
+// @verif prop=C23 class=bounded tier=thorough bound="all strings of length 7 over the 11-byte class alphabet {a Z 7 _ . ( ) : @ - SP}" targets="TypeCoordinate::from_str" timeout=1800
+#[kani::proof]
+#[kani::unwind(10)]
+fn c23_type_len7() { check_type::<7>(); }
+
+// @verif prop=C23 class=bounded tier=thorough bound="all strings of length 5 over the 11-byte class alphabet {a Z 7 _ . ( ) : @ - SP}" targets="TypeAttributeCoordinate::from_str" timeout=1800
+#[kani::proof]
+#[kani::unwind(8)]
+fn c23_type_attribute_len5() { check_type_attribute::<5>(); }
+
+// @verif prop=C23 class=bounded tier=thorough bound="all strings of length 6 over the 11-byte class alphabet {a Z 7 _ . ( ) : @ - SP}" targets="TypeAttributeCoordinate::from_str" timeout=1800
+#[kani::proof]
+#[kani::unwind(9)]
+fn c23_type_attribute_len6() { check_type_attribute::<6>(); }
+
+// @verif prop=C23 class=bounded tier=thorough bound="all strings of length 6 over the 11-byte class alphabet {a Z 7 _ . ( ) : @ - SP}" targets="DirectiveCoordinate::from_str" timeout=1800
+#[kani::proof]
+#[kani::unwind(9)]
+fn c23_directive_len6() { check_directive::<6>(); }
+
+// @verif prop=C23 class=bounded tier=thorough bound="all strings of length 7 over the 11-byte class alphabet {a Z 7 _ . ( ) : @ - SP}" targets="DirectiveCoordinate::from_str" timeout=1800
+#[kani::proof]
+#[kani::unwind(10)]
+fn c23_directive_len7() { check_directive::<7>(); }
+
+// @verif prop=C23 class=bounded tier=thorough bound="all strings of length 4 over the 11-byte class alphabet {a Z 7 _ . ( ) : @ - SP}" targets="FieldArgumentCoordinate::from_str" timeout=1800
+#[kani::proof]
+#[kani::unwind(7)]
+fn c23_field_argument_len4() { check_field_argument::<4>(); }
+
+// @verif prop=C23 class=bounded tier=thorough bound="all strings of length 5 over the 11-byte class alphabet {a Z 7 _ . ( ) : @ - SP}" targets="FieldArgumentCoordinate::from_str" timeout=1800
+#[kani::proof]
+#[kani::unwind(8)]
+fn c23_field_argument_len5() { check_field_argument::<5>(); }
+
+// @verif prop=C23 class=bounded tier=thorough bound="all strings of length 4 over the 11-byte class alphabet {a Z 7 _ . ( ) : @ - SP}" targets="DirectiveArgumentCoordinate::from_str" timeout=1800
+#[kani::proof]
+#[kani::unwind(7)]
+fn c23_directive_argument_len4() { check_directive_argument::<4>(); }
+
+// @verif prop=C23 class=bounded tier=thorough bound="all strings of length 5 over the 11-byte class alphabet {a Z 7 _ . ( ) : @ - SP}" targets="DirectiveArgumentCoordinate::from_str" timeout=1800
+#[kani::proof]
+#[kani::unwind(8)]
+fn c23_directive_argument_len5() { check_directive_argument::<5>(); }
+
+// @verif prop=C23 class=bounded tier=thorough bound="all strings of length 6 over the 11-byte class alphabet {a Z 7 _ . ( ) : @ - SP}" targets="DirectiveArgumentCoordinate::from_str" timeout=1800
+#[kani::proof]
+#[kani::unwind(9)]
+fn c23_directive_argument_len6() { check_directive_argument::<6>(); }
+
+// @verif prop=C23 class=bounded tier=thorough bound="all strings of length 7 over the 11-byte class alphabet {a Z 7 _ . ( ) : @ - SP}" targets="DirectiveArgumentCoordinate::from_str" timeout=1800
+#[kani::proof]
+#[kani::unwind(10)]
+fn c23_directive_argument_len7() { check_directive_argument::<7>(); }
+
+// @verif prop=C23 class=bounded tier=thorough bound="all strings of length 3 over the 11-byte class alphabet {a Z 7 _ . ( ) : @ - SP}" targets="SchemaCoordinate::from_str" timeout=1800
+#[kani::proof]
+#[kani::unwind(6)]
+fn c23_schema_coordinate_len3() { check_schema_coordinate::<3>(); }
+
+// @verif prop=C23 class=bounded tier=thorough bound="all strings of length 4 over the 11-byte class alphabet {a Z 7 _ . ( ) : @ - SP}" targets="SchemaCoordinate::from_str" timeout=1800
+#[kani::proof]
+#[kani::unwind(7)]
+fn c23_schema_coordinate_len4() { check_schema_coordinate::<4>(); }
